@@ -674,6 +674,16 @@ def oracle(case, obs, messages, flags):
                 if e is None or e[2] != o[1]:
                     fail(i, 'introspection shows the persisted values', 'intro-mismatch:' + key,
                          'intro-buildoptions.json has %r for %s, coredata.dat has %r' % (e, key, o[1]))
+            # per-subproject overrides are listed under the subproject-qualified name
+            for key, v in Qcd['aug'].items():
+                e = Q['intro'].get(key)
+                if e is None or e[2] != v:
+                    fail(i, 'introspection shows the persisted values', 'intro-mismatch:' + key,
+                         'intro-buildoptions.json has %r for the override %s, coredata.dat has %r' % (e, key, v))
+            for name in Q['intro']:
+                if name.startswith('sub:') and name not in Qcd['opts'] and name not in Qcd['aug']:
+                    fail(i, 'introspection shows the persisted values', 'intro-phantom:' + name,
+                         'intro-buildoptions.json lists %s, which is neither an option nor an override in coredata.dat' % name)
         P = Q
     # meson introspect --buildoptions = the intro file
     for i, (Q, fl) in enumerate(zip(obs, flags)):
